@@ -23,8 +23,11 @@ import time
 import traceback
 
 VERIF = os.path.dirname(os.path.dirname(os.path.abspath(__file__)))
-EVID_DIR = os.path.join(VERIF, "evidence")
-REPLAY_DIR = os.path.join(VERIF, "replays")
+# Evidence and replays of runs against a scratch worktree (mutation drills, VERIF_REPO=<dir>) must never
+# overwrite the evidence of /repo itself: they go to a scratch directory outside /verif.
+_SCRATCH_RUN = os.environ.get("VERIF_REPO", "/repo").rstrip("/") != "/repo"
+EVID_DIR = "/tmp/verif-scratch-evidence" if _SCRATCH_RUN else os.path.join(VERIF, "evidence")
+REPLAY_DIR = "/tmp/verif-scratch-replays" if _SCRATCH_RUN else os.path.join(VERIF, "replays")
 FINDINGS = os.path.join(VERIF, "known_findings.json")
 MAX_REPORTED = 10  # VIOLATION lines / replay files per run (total is still counted)
 # [(known id, what, predicate)] for the property being checked; set by main before run() so that forked
